@@ -127,6 +127,7 @@ func cmdCheck(args []string) {
 	verbose := fs.Bool("v", false, "verbose")
 	timeoutF := fs.Int("timeout", 0, "per-obligation timeout (s)")
 	cpuprof := fs.String("cpuprofile", "", "write a CPU profile")
+	failFast := fs.Bool("failfast", false, "must-fail corpus runs: skip the obligations not yet started once one is undischarged (requires -noevidence)")
 	noEv := fs.Bool("noevidence", false, "do not write evidence or replay files (selftest against scratch copies)")
 	fs.Parse(args)
 	if fs.NArg() < 1 {
@@ -234,7 +235,7 @@ func cmdCheck(args []string) {
 	for _, u := range units {
 		obls = append(obls, u.VC.obls...)
 	}
-	cfg := &SolverCfg{Names: []string{"z3-new", "z3", "cvc5"}, Timeout: 60 * time.Second, Seed: *seedF, WorkDir: filepath.Join(*verif, ".work", prop+workSuffix(*noEv)), Workers: 14, KeepQueries: *keep, Phase1: true}
+	cfg := &SolverCfg{Names: []string{"z3-new", "z3", "cvc5"}, Timeout: 60 * time.Second, Seed: *seedF, WorkDir: filepath.Join(*verif, ".work", prop+workSuffix(*noEv)), Workers: 14, KeepQueries: *keep, Phase1: true, FailFast: *failFast && *noEv}
 	if *tier == "thorough" {
 		cfg.Timeout = 180 * time.Second
 	}
